@@ -33,7 +33,7 @@ def showTlvs (l : List (Nat × Nat × Bytes)) : String :=
   "[" ++ joinWith ";" (l.map fun (t, n, v) => s!"{t}:{n}:{hexOrDash v}") ++ "]"
 
 def showTerm : TermInfo → String
-  | .customString raw => if raw.all (·.toNat < 128) then s!"s:{raw.length}" else "s:*"
+  | .customString raw => if raw.all (·.toNat < 128) then s!"s:{hexOrDash raw}" else "s:*"
   | .reason v => s!"r:{v}"
   | .undefinedTlv t => s!"r:{t}"
 
@@ -59,7 +59,7 @@ def showRmUpdate (cfg : Upd.Cfg) (bs : Bytes) : String :=
   | .err => "err"
   | .panic => "panic"
 
-def observe (cfg : Upd.Cfg) (bs : Bytes) : String :=
+def observeFull (cfg : Upd.Cfg) (bs : Bytes) : String :=
   match fromOctets deps bs with
   | .err => "err"
   | .panic => "panic"
@@ -94,13 +94,36 @@ def observe (cfg : Upd.Cfg) (bs : Bytes) : String :=
       s!"TM {h} info={showO (fun l => "[" ++ joinWith ";" (l.map showTerm) ++ "]") (terminationInfo bs)}"
     | .routeMirroring => s!"MI {h} pph={p}"
 
+/-- the embedded PDU of a PeerUp (either OPEN) / PeerDown (reason 1 or 3) carries another BGP type
+octet than OPEN (1) / NOTIFICATION (3) – same positional rule as the harness (`embedded_type_wrong`) -/
+def embeddedTypeWrong (bs : Bytes) : Bool :=
+  if bs.length < 6 then false else
+  let byteAt := fun (i : Nat) => (bs.getD i 0).toNat
+  if byteAt 5 = 3 then
+    if bs.length < 68 + 19 then false
+    else if byteAt (68 + 18) ≠ 1 then true
+    else
+      let l1 := byteAt (68 + 16) * 256 + byteAt (68 + 17)
+      decide (bs.length ≥ 68 + l1 + 19) && byteAt (68 + l1 + 18) ≠ 1
+  else if byteAt 5 = 2 then
+    decide (bs.length ≥ 49 + 19) && (byteAt 48 = 1 || byteAt 48 = 3) && byteAt (49 + 18) ≠ 3
+  else false
+
+def containsSub (s sub : String) : Bool := (s.splitOn sub).length > 1
+
+/-- `unspec`: on a message whose embedded PDU has the wrong BGP type (not well-formed; the property
+does not say whether it is accepted) only the class is printed – unless something panicked -/
+def observe (cfg : Upd.Cfg) (bs : Bytes) : String :=
+  let r := observeFull cfg bs
+  if embeddedTypeWrong bs && r != "panic" && !containsSub r "=panic" && !r.endsWith " panic" then "unspec" else r
+
 def handle (ws : List String) : String :=
   match ws with
-  | ["bmp", h] =>
+  | ["bmp", h] | ["bmpwf", h] =>
     match bytesOfHex h with
     | some bs => observe ⟨true, []⟩ bs
     | none => "bad-op"
-  | ["bmp", h, c] =>
+  | ["bmp", h, c] | ["bmpwf", h, c] =>
     match bytesOfHex h, Rc.Drv.C01.parseCfg c with
     | some bs, some cfg => observe cfg bs
     | _, _ => "bad-op"
